@@ -121,15 +121,27 @@ def run(ctx: Ctx) -> None:
     uses = [n for n in cfg.nodes if n not in dec and any(isinstance(x, ast.Name) and x.id == "filename" and isinstance(x.ctx, ast.Load) for x in n.walk())]
     ctx.ob("R20.2", "simple:parse_file|os.fsdecode before any use of the path", len(dec) == 1 and all(cfg.dominates(dec[0], u) for u in uses),
            msg="a path-like argument is compared or used before os.fsdecode", node=pf, mod=sm)
-    stdin = [n for n in cfg.nodes if n.kind == "stmt" and isinstance(n.stmt, ast.Assign) and "sys.stdin" in norm(n.stmt.value)]
-    ok = len(stdin) == 1
-    if ok:
-        deps = cfg.control_deps(stdin[0])
-        ok = any(norm(d.cond) == "filename == '-'" and lab == "T" for d, lab in deps)
-    ctx.ob("R20.2", "simple:parse_file|'-' means standard input", ok, msg="the '-' branch no longer reads standard input", node=pf, mod=sm, nontrivial=False)
-    enc_used = bool(stdin) and any(isinstance(x, ast.Name) and x.id == "encoding" for x in ast.walk(stdin[0].stmt.value))
-    ctx.ob("R20.2", "simple:parse_file|standard input decoded with the requested encoding", enc_used,
-           msg="standard input is read through the text layer with the process default encoding: parse_file('-', encoding=E) ignores E", node=stdin[0].stmt if stdin else pf, mod=sm)
+    # assignments to `content` that are control-dependent on `filename == "-"` (T side)
+    branch = []
+    for n in cfg.nodes:
+        if n.kind == "stmt" and isinstance(n.stmt, ast.Assign) and any(isinstance(t, ast.Name) and t.id == "content" for t in n.stmt.targets):
+            deps = cfg.control_deps(n)
+            if any(norm(d.cond) == "filename == '-'" and lab == "T" for d, lab in deps):
+                branch.append((n, deps))
+    # locals that alias (a layer of) sys.stdin
+    aliases = {t.id for st in walk_local(pf) if isinstance(st, ast.Assign) and "sys.stdin" in norm(st.value) for t in st.targets if isinstance(t, ast.Name) and t.id != "content"}
+
+    def from_stdin(v: ast.AST) -> bool:
+        return "sys.stdin" in norm(v) or any(isinstance(x, ast.Name) and x.id in aliases for x in ast.walk(v))
+
+    ok = bool(branch) and all(from_stdin(n.stmt.value) for n, _ in branch)
+    ctx.ob("R20.2", "simple:parse_file|'-' means standard input", ok, msg="the '-' branch no longer takes the content from standard input", node=pf, mod=sm, nontrivial=False)
+    with_enc = [n for n, _ in branch if any(isinstance(x, ast.Name) and x.id == "encoding" for x in ast.walk(n.stmt.value))]
+    without = [(n, deps) for n, deps in branch if n not in with_enc]
+    # reading through the text layer is acceptable only where the binary layer is known to be missing
+    fallback_ok = all(any(("buffer" in norm(d.cond) or any(a in norm(d.cond) for a in aliases)) for d, lab in deps) for n, deps in without)
+    ctx.ob("R20.2", "simple:parse_file|standard input decoded with the requested encoding", bool(with_enc) and fallback_ok,
+           msg="standard input is read through the text layer with the process default encoding: parse_file('-', encoding=E) ignores E", node=branch[0][0].stmt if branch else pf, mod=sm)
 
     # supplied content (from stdin, parse_string or a hook) is used as it is: the file is read only for None
     icfg0 = pm.cfg("__init__")
